@@ -34,7 +34,7 @@ ASSUMPTIONS = [
     "class names are unique (orderer's documented precondition)",
     "termination detector is a deterministic line-count budget, not a proof",
 ]
-BUDGET = {"quick": 400, "thorough": 6000}
+BUDGET = {"quick": 1000, "thorough": 9000}
 SLOTS = ["property", "property", "additionalProperties", "patternProperties", "propertyNames", "dependencies"]
 WRAPPERS = ["items", "tuple", "additionalItems", "contains", "properties", "patternProperties",
             "additionalProperties", "propertyNames", "dependencies", "anyOf", "oneOf", "allOf", "not"]
